@@ -1,0 +1,10 @@
+//go:build verif
+// +build verif
+
+package api
+
+// Thin wrapper (no logic) used by the verification harness in /verif (C08).
+
+func VerifMetafileLess(aName string, aSize int, bName string, bSize int) bool {
+	return metafileArray{{name: aName, size: aSize}, {name: bName, size: bSize}}.Less(0, 1)
+}
